@@ -105,6 +105,10 @@ func WithInterval(d time.Duration) PeriodicReaderOption {
 // exporter. That is left to the user to accomplish.
 func NewPeriodicReader(exporter Exporter, options ...PeriodicReaderOption) *PeriodicReader {
 	conf := newPeriodicReaderConfig(options)
+	if exporter == nil {
+		// Do not panic on the first collection, export or shutdown.
+		exporter = noopExporter{}
+	}
 	ctx, cancel := context.WithCancel(context.Background())
 	r := &PeriodicReader{
 		interval: conf.interval,
@@ -128,6 +132,23 @@ func NewPeriodicReader(exporter Exporter, options ...PeriodicReaderOption) *Peri
 
 	return r
 }
+
+// noopExporter stands in for a nil Exporter handed to NewPeriodicReader.
+type noopExporter struct{}
+
+func (noopExporter) Temporality(k InstrumentKind) metricdata.Temporality {
+	return DefaultTemporalitySelector(k)
+}
+
+func (noopExporter) Aggregation(k InstrumentKind) Aggregation {
+	return DefaultAggregationSelector(k)
+}
+
+func (noopExporter) Export(context.Context, *metricdata.ResourceMetrics) error { return nil }
+
+func (noopExporter) ForceFlush(context.Context) error { return nil }
+
+func (noopExporter) Shutdown(context.Context) error { return nil }
 
 // PeriodicReader is a Reader that continuously collects and exports metric
 // data at a set interval.
